@@ -18,10 +18,11 @@
 //!   ma-wire N (<policy> K (<name> <qty>)*)*     MultiAsset::from_bytes of a map written in THIS order
 //!   ma-json N (<policy> K (<name> <qty>)*)*     MultiAsset::from_json of an object written in this order
 //!     -> ok bytes=<to_bytes> e=<policy:name=qty,…;…> | err
-//!   mint N op*      op = a|s <script bytes> <policy> <w|r> <refhash|-> <refidx> <name> <amount>   (MintBuilder add_asset / set_asset)
+//!   mint N op*      op = a|s <script bytes> <policy> <w|r|p<lang>|q<lang>> <refhash|-> <refidx> <name> <amount>   (w/r native script as witness / reference input, p/q Plutus)   (MintBuilder add_asset / set_asset)
 //!     -> ok bytes=<Mint to_bytes> e=<…> | err
 //!   tx I n (<hash> <idx>)* C n (…)* F <0|1> SI n (<script> <w|r> <hash> <idx> <refhash|-> <refidx>)* RE n (<hash> <idx> <size>)*
-//!      G n <keyhash>* M (~ | n mintop*) XD n datum*
+//!      G n <keyhash>* M (~ | n mintop*) XD n datum* [PI n (<lang> <script> <datum|~> <hash> <idx>)*] [PW n (<lang> <script> <datum|~>)*]
+//!      [PC n (<lang> <script> <datum|~> <kind>)*] [NW n <native script>*] [NC n (<native script> <kind>)*]
 //!     -> ok ins= coll= refs= sig= mint= ns= pd= det=<1 when 3 builds, a rebuilt builder and a second process all gave the same bytes> | err
 #![allow(deprecated)]
 use cardano_serialization_lib::*;
@@ -282,7 +283,8 @@ fn finish_set<S: SetOps>(start: Option<S>, p: &mut P) -> String {
             _ => bools.push(if s.contains_b(&e).expect("contains is public for this kind") { '1' } else { '0' }),
         }
     }
-    let items: Vec<String> = s.items_b().iter().map(|b| hx(b)).collect();
+    // the elements as EMITTED: the collection's own bytes decoded again (order of the bytes, not of the in-memory vector)
+    let items: Vec<String> = match S::from_b(s.to_b()) { Some(d) => d.items_b().iter().map(|b| hx(b)).collect(), None => vec!["undecodable".to_string()] };
     let json = match s.round_json() { Some(r) => hx(&r.to_b()), None => "jsonerr".into() };
     format!("ok b={} items={} bytes={} json={}", if bools.is_empty() { "-".into() } else { bools }, csv(&items), hx(&s.to_b()), json)
 }
@@ -456,9 +458,9 @@ fn read_mint_ops(p: &mut P) -> Vec<MintOp> {
     (0..p.count()).map(|_| {
         let add = p.next() == "a"; let sbytes = p.bytes(); let _policy = p.next();
         let src = p.next(); let rh = p.next(); let ri = p.u64();
-        let (native, plutus) = if src.starts_with('p') { (None, Some(PlutusScript::new_with_version(sbytes, &lang(src[1..].parse().unwrap())))) }
+        let (native, plutus) = if src.starts_with('p') || src.starts_with('q') { (None, Some(PlutusScript::new_with_version(sbytes, &lang(src[1..].parse().unwrap())))) }
                                else { (Some(NativeScript::from_bytes(sbytes).unwrap()), None) };
-        let src_ref = if src == "r" { Some(TransactionInput::new(&TransactionHash::from_bytes(unhex_or_dash(rh)).unwrap(), ri as u32)) } else { None };
+        let src_ref = if src == "r" || src.starts_with('q') { Some(TransactionInput::new(&TransactionHash::from_bytes(unhex_or_dash(rh)).unwrap(), ri as u32)) } else { None };
         let name = p.bytes(); let amount = Int::from_str(p.next()).unwrap();
         MintOp { add, native, plutus, src_ref, name, amount }
     }).collect()
@@ -474,7 +476,10 @@ fn mint_builder(ops: &[MintOp]) -> MintBuilder {
     for o in ops {
         let w = match (&o.native, &o.plutus) {
             (Some(ns), _) => MintWitness::new_native_script(&native_source(ns, &o.src_ref)),
-            (_, Some(ps)) => MintWitness::new_plutus_script(&PlutusScriptSource::new(ps), &redeemer(&RedeemerTag::new_mint())),
+            (_, Some(ps)) => MintWitness::new_plutus_script(
+                &match &o.src_ref { None => PlutusScriptSource::new(ps),
+                                    Some(i) => PlutusScriptSource::new_ref_input(&ps.hash(), i, &ps.language_version(), ps.bytes().len()) },
+                &redeemer(&RedeemerTag::new_mint())),
             _ => unreachable!(),
         };
         let _ = if o.add { mb.add_asset(&w, &aname(&o.name), &o.amount) } else { mb.set_asset(&w, &aname(&o.name), &o.amount) };
@@ -538,18 +543,25 @@ fn make_builder(toks: &[String]) -> TransactionBuilder {
     };
     if p.i < toks.len() && p.peek() == "PI" { p.next();
         for _ in 0..p.count() { let w = pwit(&mut p, RedeemerTag::new_spend()); let input = read_txin(&mut p); ins.add_plutus_script_input(&w, &input, &ada(4_000_000)); } }
-    if p.i < toks.len() && p.peek() == "PW" { p.next(); let mut wb = WithdrawalsBuilder::new();
-        for _ in 0..p.count() { let w = pwit(&mut p, RedeemerTag::new_reward());
-            let addr = RewardAddress::new(0, &Credential::from_scripthash(&w.script().unwrap().hash()));
-            wb.add_with_plutus_witness(&addr, &BigNum::from(1_000_000u64), &w).expect("withdrawal"); }
-        tb.set_withdrawals_builder(&wb); }
-    if p.i < toks.len() && p.peek() == "PC" { p.next(); let mut cb = CertificatesBuilder::new();
-        for _ in 0..p.count() { let w = pwit(&mut p, RedeemerTag::new_cert()); let kind = p.u64();
-            let cred = Credential::from_scripthash(&w.script().unwrap().hash());
-            let cert = if kind == 0 { Certificate::new_stake_deregistration(&StakeDeregistration::new(&cred)) }
-                       else { Certificate::new_vote_delegation(&VoteDelegation::new(&cred, &DRep::new_always_abstain())) };
-            cb.add_with_plutus_witness(&cert, &w).expect("certificate"); }
-        tb.set_certs_builder(&cb); }
+    let mut wb = WithdrawalsBuilder::new(); let mut cb = CertificatesBuilder::new(); let (mut has_w, mut has_c) = (false, false);
+    let mut plutus_w: Vec<PlutusWitness> = Vec::new(); let mut plutus_c: Vec<(PlutusWitness, u64)> = Vec::new();
+    if p.i < toks.len() && p.peek() == "PW" { p.next(); for _ in 0..p.count() { plutus_w.push(pwit(&mut p, RedeemerTag::new_reward())); } }
+    if p.i < toks.len() && p.peek() == "PC" { p.next(); for _ in 0..p.count() { let w = pwit(&mut p, RedeemerTag::new_cert()); let kind = p.u64(); plutus_c.push((w, kind)); } }
+    let cert_of = |cred: &Credential, kind: u64| if kind == 0 { Certificate::new_stake_deregistration(&StakeDeregistration::new(cred)) }
+                  else { Certificate::new_vote_delegation(&VoteDelegation::new(cred, &DRep::new_always_abstain())) };
+    // withdrawals / certificates witnessed by inline native scripts (insertion order = order of the tokens), then the Plutus ones
+    if p.i < toks.len() && p.peek() == "NW" { p.next();
+        for _ in 0..p.count() { let script = NativeScript::from_bytes(p.bytes()).unwrap(); has_w = true;
+            wb.add_with_native_script(&RewardAddress::new(0, &Credential::from_scripthash(&script.hash())), &BigNum::from(1_000_000u64), &NativeScriptSource::new(&script)).expect("withdrawal"); } }
+    if p.i < toks.len() && p.peek() == "NC" { p.next();
+        for _ in 0..p.count() { let script = NativeScript::from_bytes(p.bytes()).unwrap(); let kind = p.u64(); has_c = true;
+            cb.add_with_native_script(&cert_of(&Credential::from_scripthash(&script.hash()), kind), &NativeScriptSource::new(&script)).expect("certificate"); } }
+    for w in &plutus_w { has_w = true;
+        wb.add_with_plutus_witness(&RewardAddress::new(0, &Credential::from_scripthash(&w.script().unwrap().hash())), &BigNum::from(1_000_000u64), w).expect("withdrawal"); }
+    for (w, kind) in &plutus_c { has_c = true;
+        cb.add_with_plutus_witness(&cert_of(&Credential::from_scripthash(&w.script().unwrap().hash()), *kind), w).expect("certificate"); }
+    if has_w { tb.set_withdrawals_builder(&wb); }
+    if has_c { tb.set_certs_builder(&cb); }
     tb.set_inputs(&ins);
     tb.add_output(&TransactionOutput::new(&EnterpriseAddress::new(0, &Credential::from_keyhash(&keyhash(1, 22))).to_address(), &ada(2_000_000))).unwrap();
     tb.set_fee(&BigNum::from(250_000u64));
@@ -570,11 +582,13 @@ fn exec_tx(toks: &[String], second_process: bool) -> String {
         det &= String::from_utf8_lossy(&out.stdout).trim() == hex::encode(&bytes);
     }
     let body = tx.body();
+    // TransactionBuilder::get_mint and the mint field of the built body are the same Mint
+    let get_mint_agrees = tb.get_mint().map(|m| m.to_bytes()) == body.mint().map(|m| m.to_bytes());
     // what is judged is the EMITTED witness set: its bytes decoded again
     let ws = match TransactionWitnessSet::from_bytes(tx.witness_set().to_bytes()) { Ok(w) => w, Err(_) => return "ok undecodable-witness-set".into() };
     let sig = match body.required_signers() { None => "-".into(), Some(s) => csv(&(0..s.len()).map(|i| hx(&bstr(&s.get(i).to_bytes()))).collect::<Vec<_>>()) };
-    let mut ns: Vec<String> = ws.native_scripts().map(|v| (0..v.len()).map(|i| hx(&v.get(i).to_bytes())).collect()).unwrap_or_default();
-    ns.sort();
+    // native scripts in EMITTED order (first-insertion order of the builder's combination)
+    let ns: Vec<String> = ws.native_scripts().map(|v| (0..v.len()).map(|i| hx(&v.get(i).to_bytes())).collect()).unwrap_or_default();
     let mut pd: Vec<String> = ws.plutus_data().map(|v| (0..v.len()).map(|i| hx(&v.get(i).to_bytes())).collect()).unwrap_or_default();
     pd.sort();
     let mut ps: Vec<String> = Vec::new();
@@ -587,7 +601,7 @@ fn exec_tx(toks: &[String], second_process: bool) -> String {
     }
     format!("ok ins={} coll={} refs={} sig={} mint={} ns={} ps={} pd={} det={}",
         txins_str(Some(body.inputs())), txins_str(body.collateral()), txins_str(body.reference_inputs()), sig,
-        body.mint().map(|m| hx(&m.to_bytes())).unwrap_or("~".into()), csv(&ns), if ps.is_empty() { "-".into() } else { ps.join(";") }, csv(&pd), if det { 1 } else { 0 })
+        if get_mint_agrees { body.mint().map(|m| hx(&m.to_bytes())).unwrap_or("~".into()) } else { "get_mint-differs".to_string() }, csv(&ns), if ps.is_empty() { "-".into() } else { ps.join(";") }, csv(&pd), if det { 1 } else { 0 })
 }
 
 fn exec(toks: &[String]) -> String {
@@ -793,19 +807,12 @@ fn gen_amount(r: &mut Rng) -> i128 {
 fn gen_mint_ops(r: &mut Rng, n: usize, allow_ref: bool) -> String {
     let mut s = format!("{}", n);
     let names: Vec<Vec<u8>> = (0..3).map(|_| gen_name(r)).collect();
+    // a few policies per case, native and Plutus mixed
+    let pids: Vec<u64> = (0..4).map(|_| if r.chance(1, 2) { r.below(8) } else { 8 + r.below(10) }).collect();
     for _ in 0..n {
-        let sid = r.below(4); let script = native_script(sid);
-        // a script id keeps one source kind (the builder refuses to mix them)
-        let (src, rh, ri) = if allow_ref && sid % 2 == 1 { ("r".to_string(), hx(&fill(sid, 60, 32)), sid) } else { ("w".to_string(), "-".to_string(), 0) };
-        // a Plutus minting policy (witness script; the same scripts the Plutus inputs use)
-        if r.chance(1, 5) {
-            let (l, sb) = plutus_script(r.below(3)); let ps = PlutusScript::new_with_version(sb.clone(), &lang(l));
-            let amt = { let a = gen_amount(r); if a == 0 { 3 } else { a } };
-            s += &format!(" {} {} {} p{} - 0 {} {}", if r.chance(3, 4) { "a" } else { "s" }, hx(&sb), hx(&ps.hash().to_bytes()), l, hx(r.pick(&names).as_slice()), amt);
-            continue;
-        }
+        let pid = *r.pick(&pids);
         let amt = if r.chance(1, 6) { -gen_amount(r).abs().min(5) } else { gen_amount(r) };
-        s += &format!(" {} {} {} {} {} {} {} {}", if r.chance(3, 4) { "a" } else { "s" }, hx(&script.to_bytes()), hx(&script.hash().to_bytes()), src, rh, ri, hx(r.pick(&names).as_slice()), amt);
+        s += &format!(" {} {} {} {}", if r.chance(3, 4) { "a" } else { "s" }, mint_policy_tokens(pid, allow_ref || pid >= 8), hx(r.pick(&names).as_slice()), amt);
     }
     s
 }
@@ -815,13 +822,39 @@ fn gen_mint(r: &mut Rng, out: &mut Out, thorough: bool) {
         let toks: Vec<String> = line.split_whitespace().map(|s| s.to_string()).collect();
         out.emit(&line, &guarded(move || exec(&toks)));
     }
+    // the same add_asset calls on policies of mixed witness kinds (native / Plutus, witness script / reference input), in every order
+    for _ in 0..(if thorough { 10 } else { 3 }) {
+        let k = if thorough { 4 } else { 3 };
+        let mut pids: Vec<u64> = Vec::new();
+        while pids.len() < k { let p = if pids.len() % 2 == 0 { r.below(8) } else { 8 + r.below(10) }; if !pids.contains(&p) { pids.push(p); } }
+        let ops: Vec<String> = pids.iter().map(|p| format!("a {} {} {}", mint_policy_tokens(*p, false), hx(&gen_name(r)), 1 + r.below(1000))).collect();
+        for pm in perms(k) {
+            let line = format!("mint {} {}", k, pm.iter().map(|i| ops[*i].clone()).collect::<Vec<_>>().join(" "));
+            let toks: Vec<String> = line.split_whitespace().map(|s| s.to_string()).collect();
+            out.emit(&line, &guarded(move || exec(&toks)));
+        }
+    }
     // amounts that cancel out
     let sc = native_script(0); let line = format!("mint 2 a {s} {p} w - 0 6162 5 a {s} {p} w - 0 6162 -5", s = hx(&sc.to_bytes()), p = hx(&sc.hash().to_bytes()));
     let toks: Vec<String> = line.split_whitespace().map(|s| s.to_string()).collect();
     out.emit(&line, &guarded(move || exec(&toks)));
 }
 /// a small pool of Plutus scripts: (language, bytes); ids 0 and 1 share the bytes under different languages
-fn plutus_script(id: u64) -> (u64, Vec<u8>) { match id { 0 => (2, fill(0, 40, 9)), 1 => (3, fill(0, 40, 9)), _ => (1, fill(2, 40, 7)) } }
+fn plutus_script(id: u64) -> (u64, Vec<u8>) { match id { 0 => (2, fill(0, 40, 9)), 1 => (3, fill(0, 40, 9)), 2 => (1, fill(2, 40, 7)), _ => (1 + id % 3, fill(id, 40, 8)) } }
+/// one mint operation token group on policy `pid`: ids 0..7 native scripts (odd ones through a reference input when allowed),
+/// ids 8..17 Plutus scripts (odd ones through a reference input); the script hashes are spread over the whole range, so Plutus
+/// policy ids sort before, between and after native ones
+fn mint_policy_tokens(pid: u64, allow_ref: bool) -> String {
+    if pid < 8 {
+        let script = native_script(pid);
+        let (src, rh, ri) = if allow_ref && pid % 2 == 1 { ("r".to_string(), hx(&fill(pid, 60, 32)), pid) } else { ("w".to_string(), "-".to_string(), 0) };
+        format!("{} {} {} {} {}", hx(&script.to_bytes()), hx(&script.hash().to_bytes()), src, rh, ri)
+    } else {
+        let id = pid - 8; let (l, sb) = plutus_script(id); let ps = PlutusScript::new_with_version(sb.clone(), &lang(l));
+        if id % 2 == 1 { format!("{} {} q{} {} {}", hx(&sb), hx(&ps.hash().to_bytes()), l, hx(&fill(id, 61, 32)), id) }
+        else { format!("{} {} p{} - 0", hx(&sb), hx(&ps.hash().to_bytes()), l) }
+    }
+}
 fn gen_txin(r: &mut Rng, pool: u64) -> String { let id = r.below(pool); format!("{} {}", hx(&fill(id, 70, 32)), (id % 3) + r.below(2)) }
 fn gen_tx(r: &mut Rng, out: &mut Out, thorough: bool) {
     for _ in 0..(if thorough { 1000 } else { 250 }) {
@@ -846,11 +879,19 @@ fn gen_tx(r: &mut Rng, out: &mut Out, thorough: bool) {
             let np = r.range(1, 4); line += &format!(" PI {}", np);
             for k in 0..np { let (l, sb) = plutus_script(r.below(3)); let d = if r.chance(1, 5) { "~".to_string() } else { gen_datum(r) };
                 line += &format!(" {} {} {} {} {}", l, hx(&sb), d, hx(&fill(k, 71, 32)), 50 + k); }
-            if r.chance(1, 3) { let ids: Vec<u64> = (0..3).filter(|_| r.chance(1, 2)).collect(); line += &format!(" PW {}", ids.len());
+            { let ids: Vec<u64> = if r.chance(1, 3) { (0..3).filter(|_| r.chance(1, 2)).collect() } else { vec![] }; line += &format!(" PW {}", ids.len());
                 for id in ids { let (l, sb) = plutus_script(id); let d = if r.chance(2, 3) { "~".to_string() } else { gen_datum(r) }; line += &format!(" {} {} {}", l, hx(&sb), d); } }
-            if r.chance(1, 3) { let mut pairs: Vec<(u64, u64)> = Vec::new(); for id in 0..3 { for k in 0..2 { if r.chance(1, 3) { pairs.push((id, k)); } } }
+            { let mut pairs: Vec<(u64, u64)> = Vec::new(); if r.chance(1, 3) { for id in 0..3 { for k in 0..2 { if r.chance(1, 3) { pairs.push((id, k)); } } } }
                 line += &format!(" PC {}", pairs.len());
                 for (id, k) in pairs { let (l, sb) = plutus_script(id); let d = if r.chance(2, 3) { "~".to_string() } else { gen_datum(r) }; line += &format!(" {} {} {} {}", l, hx(&sb), d, k); } }
+        }
+        // withdrawals and certificates witnessed by several DIFFERENT inline native scripts (plus repeats of a script across items)
+        if r.chance(1, 2) {
+            let mut ids: Vec<u64> = (0..8).filter(|_| r.chance(1, 2)).collect(); if r.chance(1, 2) { ids.reverse(); }
+            if !line.contains(" PI ") { line += " PI 0 PW 0 PC 0"; }
+            line += &format!(" NW {}", ids.len()); for id in &ids { line += &format!(" {}", hx(&native_script(*id).to_bytes())); }
+            let mut pairs: Vec<(u64, u64)> = Vec::new(); for _ in 0..r.below(7) { let p = (r.below(8), r.below(2)); if !pairs.contains(&p) { pairs.push(p); } }
+            line += &format!(" NC {}", pairs.len()); for (id, k) in &pairs { line += &format!(" {} {}", hx(&native_script(*id).to_bytes()), k); }
         }
         let toks: Vec<String> = line.split_whitespace().map(|s| s.to_string()).collect();
         out.emit(&line, &guarded(move || exec(&toks)));
